@@ -1,4 +1,4 @@
-From Coq Require Import ZArith List Bool Lia Arith.
+From Coq Require Import ZArith List Bool Lia Arith Permutation.
 From V Require Import Base.OptOrder Model.Sel Model.PoolQuery Model.MultiAnnot Proofs.SelProofs Proofs.PoolProofs.
 Import ListNotations.
 Open Scope Z_scope.
@@ -131,6 +131,126 @@ Proof.
   cbn [rows_with_missing]. destruct (any_true r) eqn:E.
   - cbn [map]. rewrite Hshift. rewrite count_true_cons, IH. rewrite Nat.sub_diag. cbn [nth]. rewrite count_true_cons. reflexivity.
   - rewrite Hshift, IH. rewrite count_true_cons. rewrite (filter_no_true r E). reflexivity.
+Qed.
+
+(* ---------- rows of a boolean annotators matrix follow the sorted candidate indices ---------- *)
+Lemma ins_key_perm p L : Permutation (ins_key p L) (p :: L).
+Proof.
+  induction L as [|q t IH]; cbn [ins_key]; [reflexivity|].
+  destruct (fst p <=? fst q)%nat; [reflexivity|].
+  etransitivity; [apply perm_skip, IH|apply perm_swap].
+Qed.
+
+Lemma isort_key_perm ps : Permutation (fold_right ins_key [] ps) ps.
+Proof.
+  induction ps as [|p ps IH]; cbn [fold_right]; [reflexivity|].
+  etransitivity; [apply ins_key_perm|apply perm_skip, IH].
+Qed.
+
+Lemma map_snd_combine_seq (l : list nat) s : map snd (combine l (seq s (length l))) = seq s (length l).
+Proof. revert s. induction l as [|x l IH]; intros s; [reflexivity|]. cbn. f_equal. apply IH. Qed.
+
+Lemma stable_argsort_perm l : Permutation (stable_argsort l) (seq 0 (length l)).
+Proof.
+  unfold stable_argsort.
+  etransitivity; [apply Permutation_map, isort_key_perm|]. rewrite map_snd_combine_seq. reflexivity.
+Qed.
+
+Lemma map_nth_seq_id {A} (m : list A) d : map (fun i => nth i m d) (seq 0 (length m)) = m.
+Proof.
+  induction m as [|x m IH]; [reflexivity|]. cbn [length seq map nth]. f_equal.
+  rewrite <- seq_shift, map_map. exact IH.
+Qed.
+
+Lemma perm_rows_perm l m : length m = length l -> Permutation (perm_rows l m) m.
+Proof.
+  intros E. unfold perm_rows.
+  etransitivity; [apply Permutation_map, stable_argsort_perm|]. rewrite <- E, map_nth_seq_id. reflexivity.
+Qed.
+
+Lemma count_true_perm a b : Permutation a b -> count_true a = count_true b.
+Proof.
+  induction 1 as [|x a b _ IH|x y a|a b c _ IH1 _ IH2]; [reflexivity| | |congruence].
+  - rewrite !count_true_cons, IH. reflexivity.
+  - rewrite !count_true_cons. lia.
+Qed.
+
+(* the number of candidate pairs is the number of True entries of the matrix the caller passed *)
+Theorem n_pairs_matrix y c m :
+  (forall l, c = CIdx l -> length m = length l) -> n_pairs y c (AMat m) = count_true m.
+Proof.
+  intros H. cbn [n_pairs]. destruct c as [|l|k]; cbn [mat_rows]; try reflexivity.
+  apply count_true_perm, perm_rows_perm, H. reflexivity.
+Qed.
+
+Lemma ins_key_fst p L : ~ In (fst p) (map fst L) -> map fst (ins_key p L) = ins_nat (fst p) (map fst L).
+Proof.
+  induction L as [|q t IH]; intros Hn; cbn [ins_key map ins_nat]; [reflexivity|].
+  cbn [map In] in Hn.
+  destruct (fst p <=? fst q)%nat eqn:E1; destruct (fst p <? fst q)%nat eqn:E2.
+  - reflexivity.
+  - apply Nat.leb_le in E1. apply Nat.ltb_ge in E2. exfalso. apply Hn. left. lia.
+  - apply Nat.leb_gt in E1. apply Nat.ltb_lt in E2. lia.
+  - destruct (fst p =? fst q)%nat eqn:E3.
+    + apply Nat.eqb_eq in E3. exfalso. apply Hn. left. symmetry. exact E3.
+    + cbn [map]. f_equal. apply IH. intros Hin. apply Hn. right. exact Hin.
+Qed.
+
+Lemma isort_key_fst ps : NoDup (map fst ps) -> map fst (fold_right ins_key [] ps) = uniq_sort (map fst ps).
+Proof.
+  induction ps as [|p ps IH]; intros Hnd; [reflexivity|].
+  cbn [map] in Hnd. inversion Hnd as [|x l Hx Hl]; subst.
+  cbn [fold_right map]. unfold uniq_sort in *. cbn [fold_right].
+  rewrite ins_key_fst.
+  - rewrite IH by exact Hl. reflexivity.
+  - intros Hin. apply Hx.
+    apply (Permutation_in _ (Permutation_map fst (isort_key_perm ps))). exact Hin.
+Qed.
+
+Lemma map_fst_combine_seq (l : list nat) s : map fst (combine l (seq s (length l))) = l.
+Proof. revert s. induction l as [|x l IH]; intros s; [reflexivity|]. cbn. f_equal. apply IH. Qed.
+
+Lemma in_combine_seq_nth (l : list nat) : forall s v i,
+  In (v, i) (combine l (seq s (length l))) -> (s <= i)%nat /\ nth (i - s) l 0%nat = v.
+Proof.
+  induction l as [|x l IH]; intros s v i H; [destruct H|].
+  cbn in H. destruct H as [H|H].
+  - injection H as -> ->. split; [lia|]. rewrite Nat.sub_diag. reflexivity.
+  - apply IH in H. destruct H as [Hs Hn]. split; [lia|].
+    replace (i - s)%nat with (S (i - S s)) by lia. exact Hn.
+Qed.
+
+(* the r-th entry of the stable argsort points at the r-th smallest candidate: row r of the
+   permuted matrix is the row the caller gave for the candidate that is r-th after sorting *)
+Theorem stable_argsort_sorts l :
+  NoDup l -> map (fun i => nth i l 0%nat) (stable_argsort l) = uniq_sort l.
+Proof.
+  intros Hnd. unfold stable_argsort. rewrite map_map.
+  transitivity (uniq_sort (map fst (combine l (seq 0 (length l))))); [|rewrite map_fst_combine_seq; reflexivity].
+  rewrite <- isort_key_fst by (rewrite map_fst_combine_seq; exact Hnd).
+  apply map_ext_in. intros [v i] Hin. cbn [snd fst].
+  apply (Permutation_in _ (isort_key_perm _)) in Hin.
+  apply in_combine_seq_nth in Hin. destruct Hin as [_ Hn]. rewrite Nat.sub_0_r in Hn. exact Hn.
+Qed.
+
+Theorem matrix_rows_follow_candidates l m r :
+  NoDup l -> (r < length l)%nat ->
+  exists j, (j < length l)%nat /\ nth j l 0%nat = nth r (uniq_sort l) 0%nat /\ nth r (perm_rows l m) [] = nth j m [].
+Proof.
+  intros Hnd Hr.
+  pose proof (stable_argsort_sorts l Hnd) as Hs.
+  pose proof (Permutation_length (stable_argsort_perm l)) as Hlen. rewrite seq_length in Hlen.
+  exists (nth r (stable_argsort l) 0%nat). split; [|split].
+  - assert (Hin : In (nth r (stable_argsort l) 0%nat) (stable_argsort l)) by (apply nth_In; lia).
+    apply (Permutation_in _ (stable_argsort_perm l)) in Hin. apply in_seq in Hin. lia.
+  - rewrite <- Hs.
+    rewrite (nth_indep (map (fun i => nth i l 0%nat) (stable_argsort l)) 0%nat ((fun i => nth i l 0%nat) 0%nat))
+      by (rewrite map_length; lia).
+    rewrite (map_nth (fun i => nth i l 0%nat)). reflexivity.
+  - unfold perm_rows.
+    rewrite (nth_indep (map (fun i => nth i m []) (stable_argsort l)) [] ((fun i => nth i m []) 0%nat))
+      by (rewrite map_length; lia).
+    rewrite (map_nth (fun i => nth i m [])). reflexivity.
 Qed.
 
 (* partial: the index-array-of-annotators mode is validated by the exhaustive correspondence only *)
